@@ -30,6 +30,7 @@ type Relay struct {
 	mutex     stdsync.RWMutex
 	consumers []subscription
 
+	cacheMutex        stdsync.Mutex // Serializes cache.Put calls of concurrent Puts, which only hold mutex.RLock.
 	cache             Cache
 	defaultMsgHandler func(*Envelope) // Handles messages with no subscriber.
 }
@@ -144,7 +145,12 @@ func (p *Relay) Put(e *Envelope) {
 	}
 
 	if !found {
-		if !p.cache.Put(e) {
+		// Concurrent Puts share the read lock, but caching appends to the cache.
+		p.cacheMutex.Lock()
+		cached := p.cache.Put(e)
+		p.cacheMutex.Unlock()
+
+		if !cached {
 			p.defaultMsgHandler(e)
 		}
 	}
